@@ -38,6 +38,11 @@ CHECKS = {
    text="For all 15 MA kinds plus Conv and VWMA: generated streams with generated a (both signs) and b for affine equivariance, hull containment without conditioning exemption for non-negative-weight kinds, superposition for linear kinds, constant reproduction; the impulse response of every kind at EVERY length 1..=254 is enumerated and compared with the documented weight profile (a linear shift-invariant filter is determined by it).",
    note="Trusted: closed-form profiles in props/c15.rs; allowance of DESIGN 4.2. Non-linear kinds (SMM, Vidya) are compared only under float-exact transformations.",
    ref="DESIGN.md §5 C15"),
+ "C18": dict(
+   technique="exhaustive special-value grid + PBT with formula, three-valued validate and grammar oracles",
+   text="All 11^5 candles over a special-value set (NaN, infinities, signed zeros, subnormal, huge) x 11 previous closes for tp/hl2/ohlc4/volumed price/source/clv/tr_close/validate on Candle, tuple and array; random valid and invalid candles for associativity of + and Sequence::validate; text forms of all 8 sources and all 15 MA names at every length 0..=255 round-trip, and 80k (thorough 800k) canonical/near-miss/arbitrary strings are decided by grammar oracles for Source and MA parsing.",
+   note="Trusted: textbook formulas and the two grammar oracles in props/c18.rs. validate() is not asserted where only `open` lies outside [low, high] (doc/predicate disagreement).",
+   ref="DESIGN.md §5 C18"),
 }
 
 PENDING = {
